@@ -472,6 +472,10 @@ func extraC05(col *Collector, r *RNG, tier string) {
 			pf = &f
 			desc = "fault:" + f.String()
 		}
+		if i%5 == 3 {
+			opts.slowLog = time.Duration(r.Range(2, 25)) * time.Millisecond
+			desc += "+slow-log"
+		}
 		res := runAttempt(s, m, h, mp, opts)
 		ok, note, key := check(desc, res, true)
 		corr, model := true, ""
@@ -518,6 +522,9 @@ func extraC06(col *Collector, r *RNG, tier string) {
 		f, opts := randFault(r, h, kind, npk, ntx)
 		late := kind == "err" && i%2 == 0 || causeIsTransport(kind) && i%3 == 0
 		opts.cancelLate = late
+		if i%4 == 1 {
+			opts.slowLog = time.Duration(r.Range(2, 25)) * time.Millisecond
+		}
 		s, mp := newStreamer(m, h, 6, firstFile, 4)
 		res := runAttempt(s, m, h, mp, opts)
 		ok, note, key := true, "", ""
@@ -633,7 +640,7 @@ func extraC07(col *Collector, r *RNG, tier string) {
 		for a := 0; a < attempts && ok; a++ {
 			// the master accepts any position here and ends the dump at once with an ERR or EOF
 			opts := defaultOpts()
-			endKind := r.Pickstr("eof", "err", "close")
+			endKind := r.Pickstr("eof", "err", "close", "cancel")
 			// half of the attempts get as far as the format description before they end: what an attempt learned
 			// from the master must not change what the next one announces and asks for
 			var pre []action
@@ -650,8 +657,16 @@ func extraC07(col *Collector, r *RNG, tier string) {
 					return append(pre, action{kind: "err", code: 1236, msg: "stop"})
 				case "close":
 					return append(pre, action{kind: "close"})
+				case "cancel":
+					return pre // then silence: the caller cancels (what one attempt's context did must not reach the next)
 				}
 				return append(pre, action{kind: "eof"})
+			}
+			if endKind == "cancel" && len(pre) == 0 {
+				endKind = "eof" // a cancel is only placed after the master has answered the dump request with something
+			}
+			if endKind == "cancel" {
+				opts.cancelAtSent = len(pre)
 			}
 			// some attempts die before a dump exists (refused, handshake error, checksum query rejected): they must
 			// leave the stored position alone, and the next attempt must still ask for it
